@@ -15,6 +15,12 @@ Extracted (regex over the source text, constants resolved through XalanUnicode.h
     XalanOtherEncodingWriter::write(const XalanDOMChar*, size_type) must be the unit-by-unit loop (no bulk path);
     XalanOutputStream::write(const XalanDOMChar*, size_type): flush when the run does not fit, direct write only with an
     empty buffer (bulkFlushStream)
+  * FormatterListener.cpp s_piTarget / s_piData (the raw-text marker PI); XalanXMLSerializerBase::processingInstruction /
+    characters / cdata token by token: whether m_nextIsRaw is cleared when it is honoured (rawResetCharacters / rawResetCData)
+  * XalanTranscodingServices::getMaximumCharacterValue(encoding): the chain of exact name comparisons -> maxCharTable,
+    maxCharDefault; firstUnrepresentable (from Python's codecs) for the repertoire theorem
+  * XalanOutputStream::canTranscodeTo: the transcoder object that answers (m_transcoder = the one that writes the
+    document, or m_probeTranscoder = a second one made by setOutputEncoding and never used by transcode())
   * FormatterToXMLUnicode.hpp, writeCDATAChars: the look-ahead guard of the "]]>" test (as an unsigned
     64-bit expression), which constant is written when `outsideCDATA == true` in that branch, whether the
     section is re-opened at the end of the function; writeCDATA: the condition of the final close.
@@ -209,6 +215,95 @@ def main():
     if mm.group(1) is None and mm.group(2) is None:
         bulk_flush["stream"] = False
 
+    # XalanOutputStream::canTranscodeTo: which transcoder object answers?  (the object that transcodes the document:
+    # a stateful converter loses its shift state; or a second one made for the purpose)
+    m = re.search(r"XalanOutputStream::canTranscodeTo\s*\(\s*XalanUnicodeChar\s+theChar\s*\)\s*const\s*\{\s*if\s*\(\s*(m_\w+)\s*!=\s*0\s*\)\s*\{\s*"
+                  r"return\s+(m_\w+)->canTranscodeTo\s*\(\s*theChar\s*\)\s*;", xos)
+    if not m or m.group(1) != m.group(2):
+        die("XalanOutputStream::canTranscodeTo has an unexpected form")
+    if m.group(1) == "m_transcoder":
+        probe_own = False
+    elif m.group(1) == "m_probeTranscoder":
+        if not re.search(r"m_probeTranscoder\s*=\s*XalanTranscodingServices::makeNewTranscoder\s*\(", xos) or \
+           re.search(r"m_probeTranscoder\s*->\s*transcode\s*\(", xos) or \
+           not re.search(r"m_transcoder\s*->\s*transcode\s*\(", xos):
+            die("XalanOutputStream: m_probeTranscoder is not a separate transcoder used for canTranscodeTo only")
+        probe_own = True
+    else:
+        die("XalanOutputStream::canTranscodeTo asks an unknown object: " + m.group(1))
+
+    # ---- the raw-text marker PI and m_nextIsRaw (XalanXMLSerializerBase::processingInstruction / characters / cdata)
+    def dom_string(src, qualified):
+        mm = re.search(re.escape(qualified) + r"\s*\[\s*\]\s*=\s*\{(.*?)\}\s*;", src, re.S)
+        if not mm:
+            die("string constant %s not found" % qualified)
+        vals = []
+        for it in [x.strip() for x in mm.group(1).split(",") if x.strip()]:
+            m2 = re.fullmatch(r"XalanUnicode::(\w+)|(\d+)", it)
+            if not m2:
+                die("%s: cannot read %r" % (qualified, it))
+            vals.append(consts[m2.group(1)] if m2.group(1) else int(m2.group(2)))
+        if not vals or vals[-1] != 0:
+            die("%s is not zero-terminated" % qualified)
+        return vals[:-1]
+    fl_cpp = strip_comments(read("PlatformSupport/FormatterListener.cpp"))
+    marker_target = dom_string(fl_cpp, "FormatterListener::s_piTarget")
+    marker_data = dom_string(fl_cpp, "FormatterListener::s_piData")
+    def body_of(name, args):
+        mm = re.search(r"XalanXMLSerializerBase::%s\s*\(%s\)\s*\{(.*?)\n\}\n" % (name, args), cpp, re.S)
+        if not mm:
+            die("XalanXMLSerializerBase::%s not found" % name)
+        return re.sub(r"\s+", " ", mm.group(1)).strip()
+    b = body_of("processingInstruction", r"[^)]*")
+    if b != ("if(equals(target, length(target), s_piTarget, s_piTargetLength) == true && equals(data, length(data), s_piData, s_piDataLength) == true) "
+             "{ m_nextIsRaw = true; } else { writeProcessingInstruction(target, data); }"):
+        die("XalanXMLSerializerBase::processingInstruction has an unexpected form: " + b[:300])
+    raw_reset = {}
+    for fn, plain in (("characters", "writeCharacters"), ("cdata", "writeCDATA")):
+        b = body_of(fn, r"[^)]*")
+        mm = re.fullmatch(r"if ?\(length != 0\) \{ if ?\(m_nextIsRaw(?: == true)?\) \{ (m_nextIsRaw = false; )?charactersRaw\((?:chars|ch), length\); \} "
+                          r"else \{ %s\((?:chars|ch), length\); \} \}" % plain, b)
+        if not mm:
+            die("XalanXMLSerializerBase::%s has an unexpected form: %s" % (fn, b[:300]))
+        raw_reset[fn] = mm.group(1) is not None
+
+    # ---- XalanTranscodingServices::getMaximumCharacterValue(encoding): exact (case-insensitive) name -> value, default
+    xts = strip_comments(read("PlatformSupport/XalanTranscodingServices.cpp"))
+    mm = re.search(r"XalanTranscodingServices::getMaximumCharacterValue\s*\(\s*const\s+XalanDOMString\s*&\s*theEncoding\s*\)\s*\{(.*?)\n\}\n", xts, re.S)
+    if not mm:
+        die("getMaximumCharacterValue(encoding) not found")
+    b = re.sub(r"\s+", " ", mm.group(1)).strip()
+    max_char_table = []
+    pos = 0
+    branch = re.compile(r"(?:else )?if \(((?:compareIgnoreCaseASCII\(theEncoding, s_\w+\) == 0(?: \|\| )?)+)\) \{ return static_cast<XalanDOMChar>\((0x[0-9A-Fa-f]+)u?\); \} ")
+    while True:
+        m2 = branch.match(b, pos)
+        if not m2:
+            break
+        for nm in re.findall(r"compareIgnoreCaseASCII\(theEncoding, (s_\w+)\) == 0", m2.group(1)):
+            max_char_table.append(("".join(chr(c) for c in dom_string(xts, "XalanTranscodingServices::" + nm)), int(m2.group(2), 16)))
+        pos = m2.end()
+    m2 = re.fullmatch(r"else \{ return static_cast<XalanDOMChar>\((0x[0-9A-Fa-f]+)u?\); \}", b[pos:])
+    if not m2 or not max_char_table:
+        die("getMaximumCharacterValue(encoding): not a chain of exact name comparisons with a default: " + b[pos:pos + 300])
+    max_char_default = int(m2.group(1), 16)
+    # repertoire: for each encoding the first scalar value (surrogates skipped) that an independent codec cannot encode
+    REPERTOIRE = [("US-ASCII", "ascii"), ("UTF-8", "utf_8"), ("UTF-16", "utf_16_le"), ("UTF-16LE", "utf_16_le"), ("UTF-16BE", "utf_16_be"),
+                  ("UTF-32", "utf_32_le"), ("SHIFT_JIS", "shift_jis"), ("KOI8-R", "koi8_r")] + \
+                 [("ISO-8859-%d" % n, "iso8859_%d" % n) for n in (1, 2, 3, 4, 5, 6, 7, 8, 9, 10, 11, 13, 14, 15, 16)] + \
+                 [("WINDOWS-125%d" % n, "cp125%d" % n) for n in range(0, 9)]
+    first_gap = []
+    for nm, codec in REPERTOIRE:
+        c = 0
+        while c < 0x110000:
+            if not (0xD800 <= c <= 0xDFFF):
+                try:
+                    chr(c).encode(codec, "strict")
+                except UnicodeError:
+                    break
+            c += 1
+        first_gap.append((nm, c))
+
     # CDATA logic of FormatterToXMLUnicode
     uni_hpp = strip_comments(read("XMLSupport/FormatterToXMLUnicode.hpp"))
     m = re.search(r"\bvoid\s+writeCDATAChars\s*\(([^)]*)\)\s*\{(.*?)\n    \}\n", uni_hpp, re.S)
@@ -342,6 +437,19 @@ def main():
     L.append("def bulkFlushUTF16 : Bool := %s" % ("true" if bulk_flush["utf16"] else "false"))
     L.append("/-- `XalanOutputStream::write(const XalanDOMChar*, n)` writes a long run directly only when its buffer is empty -/")
     L.append("def bulkFlushStream : Bool := %s" % ("true" if bulk_flush["stream"] else "false"))
+    L.append("/-- the marker PI (`FormatterListener::s_piTarget / s_piData`) that makes the next text node unescaped -/")
+    L.append("def rawMarkerTarget : List Nat := %s" % lst(marker_target))
+    L.append("def rawMarkerData : List Nat := %s" % lst(marker_data))
+    L.append("/-- `characters()` / `cdata()` of XalanXMLSerializerBase clear `m_nextIsRaw` when they honour it -/")
+    L.append("def rawResetCharacters : Bool := %s" % ("true" if raw_reset["characters"] else "false"))
+    L.append("def rawResetCData : Bool := %s" % ("true" if raw_reset["cdata"] else "false"))
+    L.append("/-- `XalanTranscodingServices::getMaximumCharacterValue(encoding)`: names compared exactly (ASCII case-insensitive) -/")
+    L.append("def maxCharTable : List (String × Nat) := [%s]" % ", ".join('("%s", %d)' % (n.upper(), v) for n, v in max_char_table))
+    L.append("def maxCharDefault : Nat := %d" % max_char_default)
+    L.append("/-- per encoding (upper-case name): the first scalar value an independent codec (Python) cannot encode -/")
+    L.append("def firstUnrepresentable : List (String × Nat) := [%s]" % ", ".join('("%s", %d)' % (n, v) for n, v in first_gap))
+    L.append("/-- `XalanOutputStream::canTranscodeTo` asks a transcoder of its own, not the one that transcodes the document -/")
+    L.append("def probeOwnTranscoder : Bool := %s" % ("true" if probe_own else "false"))
     L.append("/-- XalanOutputStream::transcode: `theDestinationSize = theBufferLength * %d` -/" % sizes["transcode_factor"])
     L.append("def transcodeDestFactor : Nat := %d" % sizes["transcode_factor"])
     L.append("")
